@@ -52,13 +52,13 @@ RULE = ("geometry: polygons with 3..12 vertices (integer grids up to 7x7 with "
         "at least one point inside and one outside and off the boundary (geometry), "
         "at least one filter with >= 3 points (persistence); distinct = different case dict")
 TRUSTED_BASE = [
-    "NOT PROVED: independence of the crossing parity from the direction of the "
-    "ray (classical). Proved instead: the half-open rule equals the proper-crossing parity "
-    "of every ray slightly above (C15_halfopen_is_perturbation). Validated: (a) Coq sweep "
-    "theorem C15_sweep over all triangles on the 4x4 grid x 9x9 half-integer points and all "
-    "quadrilaterals on the 3x3 grid x 7x7 points against the quadrant winding number and the "
-    "leftward ray, (b) the Python oracle uses a random generic ray direction and the "
-    "quadrant winding number on every case, a vertical ray in the exhaustive grid part",
+    "PROVED for every polygon and every point off the boundary: result = parity of the "
+    "winding number computed from quadrants (no ray), = result for the ray towards -x "
+    "(C15_winding_parity, C15_left_ray_agrees). NOT PROVED: that the proper-crossing parity of "
+    "a ray in an arbitrary other direction (e.g. +y) equals the winding parity (needs rotation "
+    "invariance of the quadrant winding number). Validated: the Python oracle uses a random "
+    "generic ray direction and its own quadrant winding number on every case, a vertical ray "
+    "in the exhaustive grid part and the long-array part",
     "NOT MODELLED: binary64 rounding of (xp[j]-xp[i])*(y-yp[i])/(yp[j]-yp[i])+xp[i]; "
     "coordinates are exact rationals in Coq. Query points closer to an edge than "
     "2^-40 relative are compared float-vs-binary only, not against the exact model",
@@ -81,10 +81,15 @@ TRUSTED_BASE = [
     "as binary and compared, not modelled in Coq",
 ]
 ASSUMPTIONS = [
-    "polygon and query coordinates are finite (no NaN/inf)",
+    "polygon coordinates are finite; a query point with a NaN/inf coordinate is expected outside "
+    "every polygon and inside every inverted filter (complement) - not modelled in Coq, checked "
+    "by the long-array oracle",
     "axes are lower-case ASCII feature names; keys and numbers in .poly files are ASCII",
-    "identifiers are non-negative; import into a cleared registry for identifier preservation "
-    "(otherwise _set_unique_id renumbers: modelled and compared, not a violation)",
+    "identifiers are non-negative; identifiers are preserved when they are free in the importing "
+    "session (C15_roundtrip_partial), otherwise fresh distinct ones are given and everything "
+    "else is preserved (C15_roundtrip_renumber; oracle: same-session import)",
+    "np.float64(token) rounds the decimal token correctly (the tokens themselves are checked to "
+    "lie in the rounding interval of the saved value by the model's decimal parser)",
     "C15_roundtrip_partial guard: names without line breaks and without leading/trailing "
     "blanks (finding C15-name-blanks)",
 ]
@@ -302,7 +307,8 @@ def gen_polygon(rng):
     kind = rng.choice(["grid", "grid", "grid", "float", "float", "star",
                        "selfx", "dup", "collinear", "rect",
                        "offset", "offset", "tiny", "gridshift", "gridshift"])
-    n = rng.choice([3, 3, 4, 4, 5, 6, 7, 8, 10, 12])
+    n = rng.choice([3, 3, 4, 4, 5, 6, 7, 8, 10, 12, 12, rng.randint(13, 40),
+                    rng.choice([1, 2])])
     if kind == "gridshift":
         # integer-grid polygon far from the origin (gates on index, frame, time):
         # exact in binary64, small relative to its distance from 0
@@ -455,7 +461,7 @@ def check_geom_impl(case, rng, ns):
     if any(a == b for a, b in zip(binary, other)) and fail is None:
         fail = "inverted filter is not the complement of the filter"
     # point_in_poly agrees with filter
-    for k in range(min(3, len(pts))):
+    for k in range(len(pts)):
         if impl_pip(poly, pts[k]) != (binary[k] ^ inv) and fail is None:
             fail = "point_in_poly(%r) differs from filter()" % (pts[k],)
     # invariances
@@ -552,23 +558,32 @@ def gen_coord(rng):
 
 
 def gen_persist_case(rng, trigger=None):
-    nf = rng.randint(1, 5)
-    ids = sorted(rng.sample(range(0, 40), nf))
+    nf = rng.choice([1, 2, 3, 4, 5, 5, rng.randint(6, 12)])
+    pool = list(range(0, 40)) + [10 ** 8 - 1, 10 ** 8, 10 ** 8 + 7, 123456789012]
+    ids = sorted(rng.sample(pool, nf + 2))
     if rng.random() < .3:
         rng.shuffle(ids)
-    filters = []
-    for i in ids:
-        n = rng.randint(3, 12)
+
+    def one(i):
+        n = rng.choice([0, 1, 2, 3, 3, 4, 5, 6, 8, 10, 12, 12, rng.randint(13, 40)])
         pts = [[gen_coord(rng), gen_coord(rng)] for _ in range(n)]
         ax = rng.sample(FEATS, 2)
         name = rng.choice(NAME_POOL)
         if rng.random() < .2:
             name = None
-        filters.append(dict(id=i, axes=ax, name=name, inv=rng.choice([0, 1]), pts=pts))
+        return dict(id=i, axes=ax, name=name, inv=rng.choice([0, 1]), pts=pts)
+    filters = [one(i) for i in ids[:nf]]
     if trigger == "blank" or (trigger is None and rng.random() < .12):
         rng.choice(filters)["name"] = rng.choice(BLANK_NAMES)
-    return dict(kind="persist", filters=filters, mode=rng.choice(["save_all", "append", "fobj"]),
+    case = dict(kind="persist", filters=filters, mode=rng.choice(["save_all", "append", "fobj"]),
                 seed=rng.randint(0, 10 ** 6))
+    r = rng.random()
+    if r < .2:      # the file exists already and holds other filters: save must append
+        case["pre_filters"] = [dict(one(i), name="earlier %d" % k) for k, i in enumerate(ids[nf:])]
+        case["mode"] = rng.choice(["save_all", "append"])
+    elif r < .35:   # import into the session that still holds the saved instances
+        case["same_session"] = 1
+    return case
 
 
 def make_filters(filters):
@@ -581,9 +596,9 @@ def make_filters(filters):
     return out
 
 
-def save_filters(pfs, path, mode):
+def save_filters(pfs, path, mode, keep=False):
     from dclab.polygon_filter import PolygonFilter
-    if os.path.exists(path):
+    if os.path.exists(path) and not keep:
         os.remove(path)
     if mode == "save_all":
         PolygonFilter.save_all(path)
@@ -599,6 +614,8 @@ def save_filters(pfs, path, mode):
 def test_points_for(rng, pts):
     import random
     r = random.Random(rng)
+    if not pts:
+        return [[0.0, 0.0], [1.0, 2.0], [-3.5, 0.25]]
     xs = [p[0] for p in pts]
     ys = [p[1] for p in pts]
     x0, x1, y0, y1 = min(xs), max(xs), min(ys), max(ys)
@@ -652,15 +669,30 @@ def check_persist_impl(case, scratch):
     PolygonFilter.clear_all_filters()
     path = os.path.join(scratch, "persist_%d.poly" % os.getpid())
     try:
-        pfs = make_filters(case["filters"])
-        orig = [dict(axes=list(p.axes), inv=bool(p.inverted), name=p.name, id=p.unique_id,
-                     pts=p.points.copy()) for p in pfs]
+        pre = case.get("pre_filters") or []
+        orig = []
         probes = []
-        for k, p in enumerate(pfs):
-            tp = np.array(test_points_for(case["seed"] + k, case["filters"][k]["pts"]))
-            probes.append((tp, p.filter(tp[:, 0], tp[:, 1]).copy()))
-        save_filters(pfs, path, case["mode"])
-        PolygonFilter.clear_all_filters()
+
+        def remember(pfs, fdicts):
+            for k, p in enumerate(pfs):
+                orig.append(dict(axes=list(p.axes), inv=bool(p.inverted), name=p.name,
+                                 id=p.unique_id, pts=p.points.copy()))
+                tp = np.array(test_points_for(case["seed"] + k, fdicts[k]["pts"]))
+                probes.append((tp, p.filter(tp[:, 0], tp[:, 1]).copy()))
+        if os.path.exists(path):
+            os.remove(path)
+        if pre:
+            ppfs = make_filters(pre)
+            remember(ppfs, pre)
+            save_filters(ppfs, path, "append")
+            PolygonFilter.clear_all_filters()
+        pfs = make_filters(case["filters"])
+        remember(pfs, case["filters"])
+        save_filters(pfs, path, case["mode"], keep=bool(pre))
+        same = bool(case.get("same_session"))
+        taken = [p.unique_id for p in PolygonFilter.instances] if same else []
+        if not same:
+            PolygonFilter.clear_all_filters()
         try:
             with warnings.catch_warnings():
                 warnings.simplefilter("ignore")
@@ -670,6 +702,14 @@ def check_persist_impl(case, scratch):
                 raise
             return ("import_all raises %s: %s" % (type(e).__name__, e), "raises",
                     "%s: %s" % (type(e).__name__, e), True)
+        if same and len(got) == len(orig):
+            # identifiers are taken: the imported filters must get fresh, distinct ones
+            newids = [g.unique_id for g in got]
+            if len(set(newids)) != len(newids) or set(newids) & set(taken):
+                return ("import into the saving session: identifiers %r are not fresh/distinct "
+                        "(taken: %r)" % (newids, taken), "id-renumber", None, True)
+            for o, g in zip(orig, got):
+                o["id"] = g.unique_id
         if len(got) != len(orig):
             return ("%d filters saved, %d imported" % (len(orig), len(got)), "count", None, True)
         for o, g, (tp, want) in zip(orig, got, probes):
@@ -719,8 +759,11 @@ def gen_pmodel_case(rng):
         filters.append(dict(id=i, axes=rng.sample(FEATS, 2), name=name, inv=rng.choice([0, 1]),
                             pts=pts))
     pre = sorted(rng.sample(range(0, 30), rng.choice([0, 0, 1, 2, 3])))
+    # PolygonFilter(filename=, fileid=k, unique_id=u) called directly
+    uid = rng.choice([-1, -1, rng.randint(0, 35)] + (pre[:1] or [-1]))
     return dict(kind="persist-model", filters=filters, pre=pre,
-                mode=rng.choice(["save_all", "append", "fobj"]))
+                mode=rng.choice(["save_all", "append", "fobj"]),
+                fileid=rng.randint(0, nf), uid=uid)
 
 
 def codes(s):
@@ -802,7 +845,28 @@ def run_pmodel_impl(case, scratch):
             text = fd.read()
         reg = prepare_registry(case["pre"])
         enc = real_import(path)
-        return normalise_text(text), enc, reg
+        direct = None
+        if "fileid" in case:
+            import warnings
+            reg2 = prepare_registry(case["pre"])
+            try:
+                with warnings.catch_warnings():
+                    warnings.simplefilter("ignore")
+                    one = PolygonFilter(filename=path, fileid=int(case["fileid"]),
+                                        unique_id=None if case["uid"] < 0 else int(case["uid"]))
+                denc = enc_import([one], None)
+            except IndexError:
+                denc = enc_import(None, 1)
+            except ValueError:
+                denc = enc_import(None, 2)
+            except KeyError:
+                denc = enc_import(None, 3)
+            except BaseException as e:
+                if isinstance(e, (KeyboardInterrupt, SystemExit)):
+                    raise
+                denc = enc_import(None, 4)
+            direct = (denc, reg2)
+        return normalise_text(text), enc, reg, direct
     finally:
         PolygonFilter.clear_all_filters()
         if os.path.exists(path):
@@ -1202,6 +1266,235 @@ def check_dtype_impl(case, scratch, rng):
 
 
 # --------------------------------------------------------------------------
+# long query arrays (N = 0, 1, around 2^16, 10^5), non-finite coordinates
+# --------------------------------------------------------------------------
+def bulk_check(run, rng):
+    """integer-grid polygons, query coordinates k/8: exact numpy int64 oracle
+    (vertical ray, half-open in x); NaN/inf query coordinates are outside every
+    polygon and inside every inverted filter (complement)"""
+    import numpy as np
+    import dclab
+    from dclab.polygon_filter import PolygonFilter
+    sizes = [0, 1, 2, 65535, 65536, 65537, 100000]
+    todo = sizes if run.thorough else [0, 1, rng.choice([65535, 65536]), 65537, 100000]
+    for N in todo:
+        n = rng.choice([3, 4, 5, 8, 13, 20])
+        g = rng.choice([3, 6, 8])
+        sh = rng.choice([0, 0, 2 ** 20, -2 ** 30])
+        poly = [(sh + rng.randint(0, g), rng.randint(0, g)) for _ in range(n)]
+        P = np.array(poly, dtype=np.int64) * 8
+        nprng = np.random.RandomState(rng.randint(0, 2 ** 31 - 1))
+        qx = nprng.randint(8 * (sh - 1), 8 * (sh + g + 1) + 1, size=N).astype(np.int64)
+        qy = nprng.randint(-8, 8 * (g + 1) + 1, size=N).astype(np.int64)
+        a, b = np.roll(P, 1, axis=0), P
+        par = np.zeros(N, dtype=bool)
+        bnd = np.zeros(N, dtype=bool)
+        for k in range(n):     # edge by edge: O(N) memory
+            ax, ay, bx, by = a[k, 0], a[k, 1], b[k, 0], b[k, 1]
+            o = (bx - ax) * (qy - ay) - (by - ay) * (qx - ax)
+            bnd |= ((o == 0) & (min(ax, bx) <= qx) & (qx <= max(ax, bx))
+                    & (min(ay, by) <= qy) & (qy <= max(ay, by)))
+            par ^= ((ax <= qx) & (qx < bx) & (o > 0)) | ((bx <= qx) & (qx < ax) & (o < 0))
+        # an inside point and an outside point at the positions where a blockwise
+        # implementation would switch blocks, and at both ends
+        ins = np.flatnonzero(par & ~bnd)
+        outs = np.flatnonzero(~par & ~bnd)
+        special = [i for i in (0, 1, N - 2, N - 1, 2 ** 15, 2 ** 16 - 2, 2 ** 16 - 1, 2 ** 16,
+                               2 ** 16 + 1, 2 ** 15 * 3, 99999) if 0 <= i < N]
+        for j, i in enumerate(special):
+            src = ins if j % 3 != 2 else outs
+            if len(src):
+                k0 = int(src[j % len(src)])
+                qx[i], qy[i], par[i], bnd[i] = qx[k0], qy[k0], par[k0], bnd[k0]
+        x = qx.astype(float) / 8.0
+        y = qy.astype(float) / 8.0
+        bad = np.zeros(N, dtype=bool)      # non-finite coordinates
+        if N >= 2:
+            idx = [i for i in nprng.choice(N, size=min(N, 12), replace=False)
+                   if i not in special]
+            vals = [np.nan, np.inf, -np.inf]
+            for j, i in enumerate(idx):
+                if j % 2:
+                    x[i] = vals[j % 3]
+                else:
+                    y[i] = vals[j % 3]
+                bad[i] = True
+        case = dict(kind="bulk", poly=[list(map(float, v)) for v in poly], N=int(N),
+                    seed=int(qx[:4].sum()) if N else 0)
+        fails = []
+        for inv in (0, 1):
+            PolygonFilter.clear_all_filters()
+            pf = PolygonFilter(axes=("area_um", "deform"), points=np.array(poly, dtype=float),
+                               inverted=bool(inv))
+            got = np.asarray(pf.filter(x, y))
+            if got.shape != (N,) or got.dtype != bool:
+                fails.append("N=%d: filter() returns shape %r dtype %s" % (N, got.shape, got.dtype))
+                continue
+            want = np.where(bad, False, par) ^ bool(inv)
+            cmp_ = (~bnd) | bad
+            wrong = cmp_ & (got != want)
+            if wrong.any():
+                i = int(np.argmax(wrong))
+                fails.append("N=%d, inverted=%s: element %d (%r, %r) classified %s, expected %s "
+                             "(%d of %d elements wrong)" % (N, bool(inv), i, float(x[i]),
+                                                            float(y[i]), bool(got[i]),
+                                                            bool(want[i]), int(wrong.sum()), N))
+            if N and inv:
+                ds = dclab.new_dataset({"area_um": x, "deform": y})
+                ds.polygon_filter_add(pf)
+                ds.apply_filter()
+                dgot = np.asarray(ds.filter.polygon)
+                if (cmp_ & (dgot != want)).any():
+                    fails.append("N=%d: dataset polygon filter differs from the exact oracle" % N)
+        PolygonFilter.clear_all_filters()
+        run.record_case(case, N > 0, sample=False)
+        run.count("bulk:N=%d" % N)
+        if fails:
+            run.oracle_failure(case, fails[0], None)
+
+
+# --------------------------------------------------------------------------
+# dataset level: two polygon filters, changing a filter that is attached
+# --------------------------------------------------------------------------
+def dataset_check(run, rng):
+    import numpy as np
+    import dclab
+    from dclab.polygon_filter import PolygonFilter
+    for _ in range(40 if run.thorough else 6):
+        PolygonFilter.clear_all_filters()
+        g1 = gen_geom_case(rng)
+        n = 60
+        x = np.array([rng.randint(-4, 20) / 2.0 for _ in range(n)])
+        y = np.array([rng.randint(-4, 20) / 2.0 for _ in range(n)])
+        polyA = [[float(rng.randint(0, 8)), float(rng.randint(0, 8))] for _ in range(rng.randint(3, 7))]
+        polyB = [[float(rng.randint(0, 8)), float(rng.randint(0, 8))] for _ in range(rng.randint(3, 7))]
+        polyC = [[float(rng.randint(0, 8)), float(rng.randint(0, 8))] for _ in range(rng.randint(3, 7))]
+        pts = [[float(a), float(b)] for a, b in zip(x, y)]
+        jA, jB, jC = (exact_judgement(pl, pts, rng) for pl in (polyA, polyB, polyC))
+        invA, invB = rng.choice([0, 1]), rng.choice([0, 1])
+        case = dict(kind="dataset", polyA=polyA, polyB=polyB, polyC=polyC, invA=invA, invB=invB,
+                    pts=pts)
+
+        def expect(terms):
+            out = []
+            for k in range(n):
+                v = True
+                for j, inv in terms:
+                    if j[k]["bnd"]:
+                        v = None
+                        break
+                    v = v and bool(j[k]["inside"] ^ inv)
+                out.append(v)
+            return out
+
+        def differs(got, want):
+            for k, (gv, w) in enumerate(zip(got, want)):
+                if w is not None and bool(gv) != w:
+                    return k
+            return None
+        ds = dclab.new_dataset({"area_um": x, "deform": y})
+        A = PolygonFilter(axes=("area_um", "deform"), points=np.array(polyA), inverted=bool(invA))
+        B = PolygonFilter(axes=("area_um", "deform"), points=np.array(polyB), inverted=bool(invB))
+        fail = None
+        steps = []
+        ds.polygon_filter_add(A)
+        ds.apply_filter()
+        steps.append(("one filter", [(jA, invA)]))
+        k = differs(ds.filter.polygon, expect(steps[-1][1]))
+        if k is not None:
+            fail = "dataset, one filter: event %r wrong" % (pts[k],)
+        ds.polygon_filter_add(B)
+        ds.apply_filter()
+        k = differs(ds.filter.polygon, expect([(jA, invA), (jB, invB)]))
+        if fail is None and k is not None:
+            fail = "dataset, two polygon filters (AND): event %r wrong" % (pts[k],)
+        h0 = A.hash
+        A.inverted = not A.inverted            # change an attached filter
+        ds.apply_filter()
+        k = differs(ds.filter.polygon, expect([(jA, 1 - invA), (jB, invB)]))
+        if fail is None and k is not None:
+            fail = ("dataset: after A.inverted was toggled and apply_filter() event %r still has "
+                    "the old classification (hash changed: %s)" % (pts[k], h0 != A.hash))
+        A.points = np.array(polyC)             # new vertices for an attached filter
+        ds.apply_filter()
+        k = differs(ds.filter.polygon, expect([(jC, 1 - invA), (jB, invB)]))
+        if fail is None and k is not None:
+            fail = "dataset: after A.points was replaced and apply_filter() event %r is stale" % (pts[k],)
+        ds.polygon_filter_rm(B)
+        ds.apply_filter()
+        k = differs(ds.filter.polygon, expect([(jC, 1 - invA)]))
+        if fail is None and k is not None:
+            fail = "dataset: after removing filter B event %r wrong" % (pts[k],)
+        PolygonFilter.clear_all_filters()
+        run.record_case(case, True, sample=False)
+        run.count("dataset:two-filters+mutation")
+        if fail is not None:
+            run.oracle_failure(case, fail, None)
+
+
+# --------------------------------------------------------------------------
+# the printed coordinates, read by the model's exact decimal parser
+# --------------------------------------------------------------------------
+def sci_token_check(run, rng):
+    """Ties the premise parsef (fmtf v) = Some v of C15_roundtrip_partial to the real
+    text: every coordinate token written by save(), read as an exact decimal by
+    Model.C15.parse_sci, lies strictly inside the interval of reals that round
+    to the saved binary64 value (so every correctly rounding reader returns it)."""
+    import numpy as np
+    from dclab.polygon_filter import PolygonFilter
+    vals = [0.1 + 0.2, 1 / 3, 5e-324, 2.2250738585072014e-308, 1.7976931348623157e308, 1.0,
+            2.0 ** 52, 2.0 ** 53 - 1, 9007199254740993.0, 0.3, 1e22, 1e23, 8.41e21, 5e-310,
+            4.35, 2.0 ** -1074 * 3, 1.0000000000000002, 0.9999999999999999, -123.456]
+    while len(vals) < (800 if run.thorough else 110):
+        r = rng.random()
+        if r < .5:
+            vals.append(gen_coord(rng))
+        elif r < .8:
+            import struct
+            bits = rng.getrandbits(64)
+            v = struct.unpack("<d", struct.pack("<Q", bits))[0]
+            if math.isfinite(v):
+                vals.append(v)
+        else:
+            m = rng.getrandbits(53) | (1 << 52)
+            vals.append(math.ldexp(m if rng.random() < .5 else (1 << 52), rng.randint(-1074, 971)))
+    vals = [v for v in vals if v != 0.0 or True]
+    if len(vals) % 2:
+        vals.append(1.5)
+    PolygonFilter.clear_all_filters()
+    path = os.path.join(run.scratch, "sci.poly")
+    pf = PolygonFilter(axes=("area_um", "deform"), points=np.array(vals, dtype=float).reshape(-1, 2))
+    pf.save(path)
+    PolygonFilter.clear_all_filters()
+    toks = []
+    for li in open(path).read().split("\n"):
+        if li.startswith("point"):
+            toks += li.split("=", 1)[1].split()
+    if len(toks) != len(vals):
+        run.broken.append(("sci-token-tie", "%d tokens for %d coordinates" % (len(toks), len(vals))))
+        return
+    cases = []
+    for t, v in zip(toks, vals):
+        fv = Fraction(v)
+        up = math.nextafter(v, math.inf)
+        dn = math.nextafter(v, -math.inf)
+        hi = (fv + Fraction(up)) / 2 if math.isfinite(up) else fv + (fv - Fraction(dn)) / 2
+        lo = (fv + Fraction(dn)) / 2 if math.isfinite(dn) else fv - (Fraction(up) - fv) / 2
+        cases.append("(%s, (%s, %d), (%s, %d))" % (render_str(t), common.zlit(lo.numerator),
+                                                    lo.denominator, common.zlit(hi.numerator),
+                                                    hi.denominator))
+    res = common.coq_map(run.scratch, "c15t", HEADER_P.replace("ZArith List", "ZArith QArith List"),
+                         "run_sci", cases, shard=100)
+    for t, v, r in zip(toks, vals, res):
+        run.corr_checked += 1
+        if r != [1]:
+            run.mismatch(dict(kind="sci-token", value=repr(v), token=t), r, [1],
+                         what="printed coordinate outside the rounding interval of the value "
+                              "(model parse_sci: %r)" % (r,))
+    run.count("sci-tokens", len(toks))
+
+
+# --------------------------------------------------------------------------
 # number-format oracle hypotheses, checked directly
 # --------------------------------------------------------------------------
 def check_format_hypotheses(run, rng):
@@ -1237,8 +1530,17 @@ def run(run):
     while len(geom) < ngeom:
         geom.append(gen_geom_case(rng, run.thorough))
     impl = []
+    kept = []
     for c in geom:
-        r = check_geom_impl(c, rng, ns)
+        try:
+            r = check_geom_impl(c, rng, ns)
+        except AssertionError:
+            raise
+        except Exception as e:     # the implementation raised: a failure of the property
+            run.record_case(c, False)
+            run.oracle_failure(c, "the implementation raises %r on this polygon/points" % (e,), None)
+            continue
+        kept.append(c)
         impl.append(r)
         run.record_case(c, r["nontrivial"])
         run.count("geom:" + c.get("shape", "?"))
@@ -1248,6 +1550,7 @@ def run(run):
                                else "inside" if j["inside"] else "outside"))
         if r["fail"] is not None:
             run.oracle_failure(c, r["fail"], None)
+    geom = kept
     # Coq evaluation. Integer-grid polygons: both predicates plus the three
     # auxiliary evaluators on every point. Float polygons (numerators and
     # denominators of hundreds of bits, slow in the VM): a bounded number of
@@ -1255,8 +1558,8 @@ def run(run):
     INTEGER = ("grid", "selfx", "dup", "collinear", "rect", "hand", "sweep", "gridshift")
     full_idx = [k for k, c in enumerate(geom) if c.get("shape") in INTEGER]
     float_idx = [k for k, c in enumerate(geom) if c.get("shape") not in INTEGER]
-    float_idx = float_idx[:(400 if run.thorough else 45)]
-    NPT = 6
+    float_idx = float_idx[:(250 if run.thorough else 45)]
+    NPT = 16 if run.thorough else 6
     model = {}
     res = common.coq_map(run.scratch, "c15g", HEADER, "c15_all",
                          [render_geom(geom[k]) for k in full_idx], shard=25)
@@ -1304,12 +1607,18 @@ def run(run):
                 run.mismatch(c, mod_res, want, what="model_cross vs exact source")
                 continue
         ok = all(j["near"] or mod_res[i] == r["binary"][i] for i, j in enumerate(judge[:n]))
-        if len(m) == 5:
-            wn_odd, bnd, left = m[2], m[3], m[4]
+        if len(m) == 7:
+            wn_odd, bnd, left, spec_r, spec_l = m[2], m[3], m[4], m[5], m[6]
+            ylevels = set(v[1] for v in c["poly"])
             for i, j in enumerate(judge):
                 if bnd[i] != j["bnd"]:
                     ok = False
                 if not j["bnd"] and (wn_odd[i] != (j["wn"] & 1) or left[i] != j["inside"]):
+                    ok = False
+                # the two specifications (proper crossings of the +x / -x ray) for
+                # points in general position
+                if not j["bnd"] and c["pts"][i][1] not in ylevels and \
+                        (spec_r[i] != j["inside"] or spec_l[i] != j["inside"]):
                     ok = False
         if not ok:
             run.mismatch(c, m, dict(binary=r["binary"], judge=judge),
@@ -1323,7 +1632,11 @@ def run(run):
     while len(pers) < npers:
         pers.append(gen_persist_case(rng))
     for c in pers:
-        fail, kind, detail, nontrivial = check_persist_impl(c, run.scratch)
+        try:
+            fail, kind, detail, nontrivial = check_persist_impl(c, run.scratch)
+        except Exception as e:
+            fail, kind, detail, nontrivial = ("creating/saving/filtering raises %r" % (e,),
+                                              "crash", None, True)
         run.record_case(c, nontrivial, sample=False)
         run.count("persist:" + c["mode"])
         run.count("persist:filters=%d" % len(c["filters"]))
@@ -1332,7 +1645,7 @@ def run(run):
             run.oracle_failure(c, fail, classify_persist(c, kind, detail))
 
     # ---------------- persistence: model ----------------
-    npm = 1500 if run.thorough else 150
+    npm = 1500 if run.thorough else 100
     pm = [c for c in corpus if c.get("kind") == "persist-model"]
     while len(pm) < npm:
         pm.append(gen_pmodel_case(rng))
@@ -1340,16 +1653,38 @@ def run(run):
     saved = common.coq_map(run.scratch, "c15s", HEADER_P, "run_save",
                            [render_save(c) for c in pm], shard=50)
     imported = common.coq_map(run.scratch, "c15i", HEADER_P, "run_import",
-                              [render_import(t, reg[0], reg[1]) for (t, _, reg) in real], shard=50)
-    for c, (text, enc, reg), ms, mi in zip(pm, real, saved, imported):
+                              [render_import(t, reg[0], reg[1]) for (t, _, reg, _d) in real], shard=50)
+    dcases = [(c, r) for c, r in zip(pm, real) if r[3] is not None]
+    dmodel = common.coq_map(run.scratch, "c15d", HEADER_P, "run_load_one",
+                            ["(%s, %d, %s, %s, %d)" % (render_str(r[0]), c["fileid"],
+                                                        common.zlit(c["uid"]),
+                                                        common.zlist(r[3][1][0]), r[3][1][1])
+                             for c, r in dcases], shard=50)
+    for (c, r), md in zip(dcases, dmodel):
+        run.corr_checked += 1
+        run.count("direct-load:uid=%s" % ("none" if c["uid"] < 0 else
+                                           "clash" if c["uid"] in c["pre"] else "free"))
+        denc = r[3][0]
+        if (md[0] == 0) != (denc[0] == 0) or (denc[0] == 0 and md != denc) or \
+                (denc[0] == 1) != (md[0] == 1):
+            run.mismatch(c, md, denc, what="PolygonFilter(filename=, fileid=%d, unique_id=%s)"
+                         % (c["fileid"], c["uid"]))
+    for c, (text, enc, reg, _d), ms, mi in zip(pm, real, saved, imported):
         run.corr_checked += 1
         run.record_case(c, any(len(f["pts"]) >= 3 for f in c["filters"]), sample=False)
         run.count("persist-model")
-        if ms != codes(text):
-            run.mismatch(c, "".join(chr(x) for x in ms), text, what="save text")
-        elif mi != enc:
+        if mi != enc:
             run.mismatch(c, mi, enc, what="import_all of the saved text")
-    nmu = 3000 if run.thorough else 300
+        elif ms != codes(text):
+            # the layout of the file is not part of the property: when the model's
+            # loader reads the real text exactly as the implementation does (checked
+            # just above), a different rendering is reported as a note only
+            run.count("save-text-differs-from-model")
+            if len(run.notes) < 3:
+                run.notes.append("saved text differs from the model's save_all (format "
+                                 "change?) while both loaders agree on it: %r vs %r" % (
+                                     "".join(chr(x) for x in ms)[:120], text[:120]))
+    nmu = 2000 if run.thorough else 200
     mu = [c for c in corpus if c.get("kind") == "persist-mutant"]
     while len(mu) < nmu:
         mu.append(gen_mutant_case(rng))
@@ -1361,9 +1696,21 @@ def run(run):
         run.corr_checked += 1
         run.record_case(c, enc[0] == 0 and len(enc) > 2 and enc[1] > 0, sample=False)
         run.count("mutant:result=%d" % enc[0])
-        if mi != enc:
+        # hand-edited files: the property says nothing about WHICH error a malformed
+        # file raises; success results are compared exactly, errors only as "error"
+        if (mi[0] == 0) != (enc[0] == 0) or (enc[0] == 0 and mi != enc):
             run.mismatch(c, mi, enc, what="import_all of a mutated file")
 
+
+    # ---------------- long arrays, non-finite values, dataset level, printed numbers
+    for stage in (bulk_check, dataset_check):
+        try:
+            stage(run, rng)
+        except AssertionError:
+            raise
+        except Exception as e:
+            run.oracle_failure(dict(kind=stage.__name__), "the implementation raises %r" % (e,), None)
+    sci_token_check(run, rng)
 
     # ---------------- mixed dtypes / layouts of the query arrays ----------------
     ndt = 1500 if run.thorough else 160
@@ -1371,7 +1718,12 @@ def run(run):
     while len(dts) < ndt:
         dts.append(gen_dtype_case(rng))
     for c in dts:
-        fail, nontrivial = check_dtype_impl(c, run.scratch, rng)
+        try:
+            fail, nontrivial = check_dtype_impl(c, run.scratch, rng)
+        except AssertionError:
+            raise
+        except Exception as e:
+            fail, nontrivial = "the implementation raises %r" % (e,), True
         run.record_case(c, nontrivial, sample=False)
         run.count("dtype:%s/%s" % (c["xdt"], c["ydt"]))
         run.count("layout:" + c["layout"])
@@ -1386,21 +1738,36 @@ def run(run):
     while len(cps) < ncp:
         cps.append(gen_copy_case(rng))
     obs = []
+    kept = []
     for c in cps:
-        fail, ob = check_copy_impl(c, run.scratch, rng)
+        try:
+            fail, ob = check_copy_impl(c, run.scratch, rng)
+        except AssertionError:
+            raise
+        except Exception as e:
+            run.record_case(c, True, sample=False)
+            run.oracle_failure(c, "the implementation raises %r" % (e,), None)
+            continue
+        kept.append(c)
         obs.append(ob)
         run.record_case(c, True, sample=False)
         run.count("copy:inv0=%d,%s,flags=%s" % (c["inv0"], c["source"],
                                                 "".join(map(str, c["flags"]))))
         if fail is not None:
             run.oracle_failure(c, fail, None)
+    cps = kept
     modc = common.coq_map(run.scratch, "c15c", HEADER_P, "run_copies",
                           [render_copy(c, ob[0]) for c, ob in zip(cps, obs)], shard=40)
     for c, (reg0, ob, reg1), m in zip(cps, obs, modc):
         run.corr_checked += 1
         want = [v for pair in ob for v in pair] + [reg1[1]] + reg1[0]
-        if m != want:
-            run.mismatch(c, m, want, what="copy chain: identifiers / inverted flags / registry")
+        nflag = 2 * len(ob)
+        if m[1:nflag:2] != want[1:nflag:2]:
+            run.mismatch(c, m, want, what="copy chain: inverted flags")
+        elif m != want:
+            # which fresh identifier a copy gets is not part of the property (freshness
+            # is checked by the oracle): a different allocator is a note, not an alarm
+            run.count("copy-id-allocation-differs-from-model")
 
 
 # --------------------------------------------------------------------------
